@@ -17,6 +17,44 @@ From Coq Require Import ZArith NArith List Bool.
 Import ListNotations.
 From V Require Import Model.Val Model.GitTx Proofs.GitTxP Proofs.GitTxTie.
 
+(* ---- the concrete instance used by the [*_hyps_sat] examples below (each shows that ALL hypotheses of
+        one theorem hold together): a repository with two commits on refs/heads/m and a second branch
+        refs/heads/o at the root commit; the handler sits on the tip of m; its work tree lists the files in
+        another order than the index (so [teq], not [=], is what [clean] needs); the committer identity comes
+        half from the options, half from the environment ---- *)
+Definition hs_main : str := s_refs_heads ++ [109]%N.           (* refs/heads/m *)
+Definition hs_other : str := s_refs_heads ++ [111]%N.          (* refs/heads/o *)
+Definition hs_a : str := [97]%N.
+Definition hs_b : str := [98]%N.
+Definition hs_n : str := [110]%N.
+Definition hs_t0 : tree := [(hs_a, [48]%N); (hs_b, [48]%N)].
+Definition hs_t1 : tree := [(hs_b, [49]%N); (hs_a, [48]%N)].
+Definition hs_s : st :=
+  {| refs := [(hs_other, 0); (hs_main, 1)];
+     commits := [{| cparent := None; ctree := hs_t0; cmsg := [105]%N; cauthor := ([118]%N, [118]%N) |};
+                 {| cparent := Some 0; ctree := hs_t1; cmsg := [106]%N; cauthor := ([118]%N, [118]%N) |}];
+     head := 1; index := hs_t1; wt := [(hs_a, [48]%N); (hs_b, [49]%N)]; slot := false; rev := hs_main;
+     env_author := ([118]%N, [119]%N) |}.
+Definition hs_plain : opts :=
+  {| dry_run := false; ignore_empty := true; remote_branch := None; author := ([65]%N, []); msg := [120]%N |}.
+Definition hs_dry : opts :=
+  {| dry_run := true; ignore_empty := true; remote_branch := None; author := ([65]%N, []); msg := [120]%N |}.
+Definition hs_cafe : opts :=      (* remote_branch = "cafe": looks like an abbreviated object name *)
+  {| dry_run := false; ignore_empty := true; remote_branch := Some [99;97;102;101]%N; author := ([], []); msg := [120]%N |}.
+(* a.0 -> 1 -> 3 (last write wins), new file n *)
+Definition hs_body : list bop := [BWrite hs_a [49]%N true; BWrite hs_n [50]%N true; BWrite hs_a [51]%N true].
+(* writes that end where HEAD's tree already is: a is changed and changed back, b is rewritten *)
+Definition hs_same : list bop := [BWrite hs_a [55]%N true; BWrite hs_a [48]%N true; BWrite hs_b [49]%N true].
+Example hs_inv : inv hs_s.
+Proof.
+  split; [split; [|split]|split].
+  - apply tree_eqb_true; vm_compute; reflexivity.
+  - apply teq_refl.
+  - reflexivity.
+  - reflexivity.
+  - cbn; auto.
+Qed.
+
 (* 1. A save that succeeds creates exactly one commit [c]: it is the only new object, its parent is the
       commit the handler was at, its tree is the parent's tree with exactly the (closed) written files
       replaced by the written bytes (last write wins), message and author are the given ones; exactly the
@@ -31,6 +69,10 @@ Theorem commit_exactly_one : forall o body s f c s' f',
   head s' = c /\ slot s' = false /\ (all_closed body = true -> clean s').
 Proof. exact commit_exactly_one_l. Qed.
 Print Assumptions commit_exactly_one.
+(* all hypotheses together: three writes, a fault scheduled for a step (40) the transaction never reaches *)
+Example commit_exactly_one_hyps_sat :
+  exists s', inv hs_s /\ run_tx hs_plain hs_body hs_s (Some 40) = (Committed 2, s', Some 25).
+Proof. eexists; split; [exact hs_inv|vm_compute; reflexivity]. Qed.
 
 (* 2. A save that changes no file creates no commit and moves no ref (ignore_empty, the default) —
       whatever else happens (any fault, dry run or not). *)
@@ -39,6 +81,23 @@ Theorem no_change_no_commit : forall o body s f out s' f',
   run_tx o body s f = (out, s', f') -> commits s' = commits s /\ refs s' = refs s.
 Proof. exact no_change_no_commit_l. Qed.
 Print Assumptions no_change_no_commit.
+Example hs_same_unchanged : unchanged hs_same (tree_of (head hs_s) (commits hs_s)).
+Proof.
+  intros p b; simpl.
+  destruct (str_eqb p hs_b) eqn:Eb.
+  { apply g_str_eqb_eq in Eb; subst p. intros H; inversion H; reflexivity. }
+  destruct (str_eqb p hs_a) eqn:Ea; [|discriminate].
+  apply g_str_eqb_eq in Ea; subst p. intros H; inversion H; reflexivity.
+Qed.
+(* all hypotheses together, once without a fault (NoChange) and once with git add failing (step 6) *)
+Example no_change_no_commit_hyps_sat :
+  exists s', inv hs_s /\ ignore_empty hs_plain = true /\ unchanged hs_same (tree_of (head hs_s) (commits hs_s)) /\
+             run_tx hs_plain hs_same hs_s None = (NoChange, s', None).
+Proof. eexists; split; [exact hs_inv|]. split; [reflexivity|]. split; [exact hs_same_unchanged|vm_compute; reflexivity]. Qed.
+Example no_change_no_commit_hyps_sat_2 :
+  exists s', inv hs_s /\ ignore_empty hs_plain = true /\ unchanged hs_same (tree_of (head hs_s) (commits hs_s)) /\
+             run_tx hs_plain hs_same hs_s (Some 6) = (Aborted E_OSError, s', None).
+Proof. eexists; split; [exact hs_inv|]. split; [reflexivity|]. split; [exact hs_same_unchanged|vm_compute; reflexivity]. Qed.
 
 (* 2'. conversely a commit made under ignore_empty changes at least one written file *)
 Theorem commit_not_empty : forall o body s f c s' f',
@@ -46,6 +105,9 @@ Theorem commit_not_empty : forall o body s f c s' f',
   exists p, last_write p body <> None /\ last_write p body <> lookup p (tree_of (head s) (commits s)).
 Proof. exact commit_not_empty_l. Qed.
 Print Assumptions commit_not_empty.
+Example commit_not_empty_hyps_sat :
+  exists s', inv hs_s /\ ignore_empty hs_plain = true /\ run_tx hs_plain hs_body hs_s None = (Committed 2, s', None).
+Proof. eexists; split; [exact hs_inv|]. split; [reflexivity|vm_compute; reflexivity]. Qed.
 
 (* 3. A transaction aborted by an error — the caller's, a failing open, or a fault injected at ANY step
       before or inside the commit phase — moves no ref, leaves HEAD, index and work tree as they were and
@@ -55,6 +117,15 @@ Theorem abort_restores : forall o body s f e s' f',
   refs s' = refs s /\ head s' = head s /\ teq (wt s') (wt s) /\ teq (index s') (index s) /\ inv s'.
 Proof. exact abort_restores_l. Qed.
 Print Assumptions abort_restores.
+(* all hypotheses together: commit-tree (step 12, after rev-parse, 3 x 3 body steps, write-tree, cat-file)
+   fails; and the caller raising with a file still open *)
+Example abort_restores_hyps_sat :
+  exists s', inv hs_s /\ run_tx hs_plain hs_body hs_s (Some 12) = (Aborted E_OSError, s', None).
+Proof. eexists; split; [exact hs_inv|vm_compute; reflexivity]. Qed.
+Example abort_restores_hyps_sat_2 :
+  exists s', inv hs_s /\ run_tx hs_plain [BWrite hs_b [50]%N true; BWrite hs_n [49]%N false; BRaise] hs_s None
+                        = (Aborted E_KeyError, s', None).
+Proof. eexists; split; [exact hs_inv|vm_compute; reflexivity]. Qed.
 
 (* 3'. the same for a dry run; the commit object it creates is the faithful one, referenced by nothing *)
 Theorem dry_run_restores : forall o body s f c s' f',
@@ -64,6 +135,9 @@ Theorem dry_run_restores : forall o body s f c s' f',
              written_tree body (tree_of (head s) (commits s)) (ctree cm).
 Proof. exact dry_run_restores_l. Qed.
 Print Assumptions dry_run_restores.
+Example dry_run_restores_hyps_sat :
+  exists s', inv hs_s /\ run_tx hs_dry hs_body hs_s None = (DryRun 2, s', None).
+Proof. eexists; split; [exact hs_inv|vm_compute; reflexivity]. Qed.
 
 (* 3''. a transaction that could not be opened (object-like target, rev-parse failed, one already open)
         changes nothing at all *)
@@ -71,12 +145,25 @@ Theorem refused_unchanged : forall o body s f e s' f',
   inv s -> run_tx o body s f = (Refused e, s', f') -> s' = s.
 Proof. exact refused_unchanged_l. Qed.
 Print Assumptions refused_unchanged.
+(* under [inv] (slot free, revision resolves) a refusal comes from rev-parse failing (fault at step 0)
+   or from an object-like target name *)
+Example refused_unchanged_hyps_sat :
+  inv hs_s /\ run_tx hs_plain hs_body hs_s (Some 0) = (Refused E_OSError, hs_s, None).
+Proof. split; [exact hs_inv|vm_compute; reflexivity]. Qed.
+Example refused_unchanged_hyps_sat_2 :
+  inv hs_s /\ run_tx hs_cafe hs_body hs_s (Some 3) = (Refused E_ValueError, hs_s, Some 3).
+Proof. split; [exact hs_inv|vm_compute; reflexivity]. Qed.
 
 (* 4. After any transaction, whatever its outcome, the handler has no transaction open ... *)
 Theorem handler_idle_after : forall o body s f out s' f',
   inv s -> run_tx o body s f = (out, s', f') -> slot s' = false.
 Proof. exact idle_after. Qed.
 Print Assumptions handler_idle_after.
+(* all hypotheses together, in the least friendly outcome: the caller raises and `git clean` of the
+   rollback (step 5) is interrupted *)
+Example handler_idle_after_hyps_sat :
+  exists s', inv hs_s /\ run_tx hs_plain [BWrite hs_n [49]%N true; BRaise] hs_s (Some 5) = (RollbackFailed E_OSError, s', None).
+Proof. eexists; split; [exact hs_inv|vm_compute; reflexivity]. Qed.
 
 (* ... and without an injected fault the rollback always completes and a new transaction is only ever
    refused for its target name. *)
@@ -86,6 +173,10 @@ Theorem no_fault_no_failure : forall o body s out s' f',
   (objectlike (target_name o s) = false -> forall e, out <> Refused e).
 Proof. exact nofault_l. Qed.
 Print Assumptions no_fault_no_failure.
+Example no_fault_no_failure_hyps_sat :
+  exists s', inv hs_s /\ run_tx hs_plain [BWrite hs_n [49]%N true; BBadOpen hs_b] hs_s None = (Aborted E_FileNotFound, s', None)
+             /\ objectlike (target_name hs_plain hs_s) = false.
+Proof. eexists; split; [exact hs_inv|]. split; [vm_compute; reflexivity|reflexivity]. Qed.
 
 (* 5. [inv] is an invariant of every transaction on the handler's own branch whose files were closed and
       whose rollback was not itself interrupted ... *)
@@ -95,6 +186,14 @@ Theorem inv_preserved : forall o body s f out s' f',
   (forall c, out = Committed c -> target_ref o s = rev s) -> inv s'.
 Proof. exact inv_preserved_l. Qed.
 Print Assumptions inv_preserved.
+Example inv_preserved_hyps_sat :
+  exists s', inv hs_s /\ all_closed hs_body = true /\ run_tx hs_plain hs_body hs_s None = (Committed 2, s', None) /\
+             (forall e, Committed 2 <> RollbackFailed e) /\
+             (forall c, Committed 2 = Committed c -> target_ref hs_plain hs_s = rev hs_s).
+Proof.
+  eexists; split; [exact hs_inv|]. split; [reflexivity|]. split; [vm_compute; reflexivity|].
+  split; [discriminate|reflexivity].
+Qed.
 
 (* ... hence of whole histories of any length: 1-4 apply to every transaction of the history. *)
 Theorem history_inv : forall hs s, inv s -> Forall (own_tx s) hs ->
@@ -102,16 +201,36 @@ Theorem history_inv : forall hs s, inv s -> Forall (own_tx s) hs ->
   Forall (fun r => inv (snd r)) (run_history hs s).
 Proof. exact history_inv_l. Qed.
 Print Assumptions history_inv.
+(* all hypotheses together for a history of five steps with four different outcomes: a commit, an
+   aborted dry run (file.write fails), a write outside any transaction, a no-change save, a dry run *)
+Definition hs_history : list hop :=
+  [HTx hs_plain hs_body None; HTx hs_dry [BWrite hs_b [50]%N true] (Some 2); HWriteOutside;
+   HTx hs_plain [BWrite hs_a [51]%N true] None; HTx hs_dry [BWrite hs_b [50]%N true] None].
+Example history_inv_hyps_sat :
+  inv hs_s /\ Forall (own_tx hs_s) hs_history /\
+  (forall e s', ~ In (RollbackFailed e, s') (run_history hs_history hs_s)) /\
+  map fst (run_history hs_history hs_s) = [Committed 2; Aborted E_OSError; Refused E_RuntimeError; NoChange; DryRun 3].
+Proof.
+  split; [exact hs_inv|]. split; [repeat constructor|]. split; [|vm_compute; reflexivity].
+  intros e s' H. vm_compute in H.
+  repeat (destruct H as [H|H]; [discriminate H|]). exact H.
+Qed.
 
 (* 6. refusals *)
+(* by definition of run_tx (its first test, _GitTransaction.__init__) *)
 Theorem refuses_objectlike_target : forall o body s f,
   objectlike (target_name o s) = true -> run_tx o body s f = (Refused E_ValueError, s, f).
 Proof. exact refuses_objectlike_l. Qed.
 Print Assumptions refuses_objectlike_target.
+Example refuses_objectlike_target_hyps_sat : objectlike (target_name hs_cafe hs_s) = true.
+Proof. reflexivity. Qed.
 
+(* by definition of open_w *)
 Theorem write_requires_transaction : forall s, slot s = false -> open_w s = Some E_RuntimeError.
 Proof. intros s H; unfold open_w; rewrite H; reflexivity. Qed.
 Print Assumptions write_requires_transaction.
+Example write_requires_transaction_hyps_sat : slot hs_s = false.
+Proof. reflexivity. Qed.
 
 (* ------------------------------------------------------------------ witnesses *)
 Definition r_main : str := s_refs_heads ++ [109]%N.           (* refs/heads/m *)
